@@ -262,6 +262,9 @@ def describe_experiment(rec):
         return rec[:300]
     if e.get("k") == "sb":
         return "store-buffering litmus with %s between store and load: outcome r1=r2=0 observed %d times in %d iterations (impl %s)" % (e["op"], e["n00"], e["iters"], e["impl"])
+    if e.get("k") == "ps":
+        return ("plain assignment followed by uatomic_%s on a %d-byte %s variable in one optimised function: location holds %s afterwards, the assigned value was %s, "
+                "operand %s (impl %s): the operation did not act on the value the plain store wrote" % (e["op"], e["w"], e["sc"], e["res"], e["init"], e["d"], e["impl"]))
     if e.get("k") == "cb":
         return ("compiler-barrier litmus: a plain counter polled under a lock built from %s alone %s (final %s, expected %s, impl %s): the operation does "
                 "not order the caller's plain accesses" % (e["op"], "was seen to complete" if e.get("done") else "never showed its final value to the poller", e.get("final"), e.get("expect"), e["impl"]))
